@@ -589,6 +589,8 @@ def pred_c16(T, inp):
         ren[o] = a
     if {frozenset((ren[u], ren[v])): d for u, v, d in g.edges(data=True)} != {frozenset((u, v)): d for u, v, d in r.edges(data=True)}:
         return "bonds or bond data not carried along"
+    random.seed(987654321 + len(inp["atoms"]))  # a different global RNG state before the second call
+    random.random()
     r2 = T.permute_molecule(g, random_seed=inp["seed"])
     if list(r2.nodes(data=True)) != list(r.nodes(data=True)) or list(r2.edges(data=True)) != list(r.edges(data=True)):
         return "same seed gave a different result"
@@ -1079,7 +1081,7 @@ def gen_c16(T, tier, seed, budget, out: Outcome):
     rnd.shuffle(mols)
     for atoms, edges in mols[: (150 if tier == "quick" else 2000)]:
         n = len(atoms)
-        for seed_ in [rnd.random() for _ in range(2 if tier == "quick" else 10)]:
+        for seed_ in [rnd.choice([0.0, 0.5, 0.999999])] + [rnd.random() for _ in range(2 if tier == "quick" else 10)]:
             if time.time() - t0 > budget or len(out.violations) >= 3:
                 return
             relabel = sorted(rnd.sample(range(100), n)) if rnd.random() < .3 else None
